@@ -489,13 +489,16 @@ expandfunc(struct macro *m)
 	struct array str, tok;
 	size_t i, depth, paren;
 	struct token *t, cur;
+	bool nl;
 
 	/* read macro arguments */
 	paren = 0;
 	depth = macrodepth;
 	tok = (struct array){0};
 	arg = xreallocarray(NULL, m->nparam, sizeof(*arg));
-	t = rawnext();
+	nl = false;
+	do t = rawnext();
+	while (m->nparam == 0 && t->kind == TNEWLINE);
 	for (i = 0; i < m->nparam; ++i) {
 		p = &m->param[i];
 		if (p->flags & PARAMSTR) {
@@ -518,9 +521,15 @@ expandfunc(struct macro *m)
 				if (p->flags & PARAMSTR)
 					stringize(&str, t);
 			}
-			if (p->flags & PARAMTOK) {
+			if (t->kind == TNEWLINE) {
+				/* white space, not an argument token */
+				nl = true;
+			} else if (p->flags & PARAMTOK) {
 				/* expand() may pop the frame whose token array *t lives in */
 				cur = *t;
+				if (nl)
+					cur.space = true;
+				nl = false;
 				if (!expand(&cur)) {
 					arrayaddbuf(&tok, &cur, sizeof(cur));
 					++arg[i].ntoken;
@@ -528,7 +537,10 @@ expandfunc(struct macro *m)
 			}
 			t = rawnext();
 		}
+		nl = false;
 		if (p->flags & PARAMSTR) {
+			if (str.len > 1 && ((char *)str.val)[str.len - 1] == ' ')
+				--str.len;
 			arrayaddbuf(&str, "\"", 2);
 			arg[i].str = (struct token){
 				.kind = TSTRINGLIT,
